@@ -1234,7 +1234,9 @@ def _family_of(what, c, g, warned_series, fn="expmint"):
     """stable family string from the input's characteristics: the two recorded findings are
     recognised by (singular / series fallback taken, ||Ah||_1 > 12) and (regular but
     ||(Ah)^-1||_1 > 200, no fallback); anything else is named by routine, quantity and norm regime"""
-    if what in ("I2", "P", "Q", "raises-RuntimeError"):
+    # the dispatcher getEPQ sends ||A h||_1 > theta_9 to getEPQ2, which has neither recorded defect: a failure of
+    # getEPQ itself is never one of the two known families
+    if what in ("I2", "P", "Q", "raises-RuntimeError") and fn != "getEPQ":
         if (g["singular"] or warned_series) and g["nu"] > 12.0:
             return F12
         if (not g["singular"]) and g["inv1"] > 200.0 and not warned_series and what != "raises-RuntimeError":
